@@ -16,23 +16,66 @@ RULES = {
 
 
 def find_writer(repo):
-    """The function whose result is ' '.join-ed into instance lines, in both generators."""
+    """The tie writer = the one generator function that decorates list entries with '(' and ')' in a loop; its call sites
+    in both create_instance methods (directly or through a pass-through wrapper)."""
+    gen = repo.rel('generator')
+    def paren_strings(f, seen):
+        strs = {n.value for n in ast.walk(f.node) if isinstance(n, ast.Constant) and isinstance(n.value, str) and len(n.value) <= 4}
+        for n in ast.walk(f.node):
+            if isinstance(n, ast.Call) and isinstance(n.func, ast.Name) and n.func.id not in seen:
+                for g in repo.funcs_by_name.get(n.func.id, []):
+                    if g.relpath.startswith(gen):
+                        seen.add(n.func.id)
+                        strs |= paren_strings(g, seen)
+        return strs
+    cands = []
+    for f in repo.all_funcs():
+        if not f.relpath.startswith(gen):
+            continue
+        strs = paren_strings(f, {f.name})
+        has_paren = any('(' in x for x in strs) and any(')' in x for x in strs)
+        loops = [n for n in f.node.body if isinstance(n, ast.For)]
+        appends = any(isinstance(n, ast.Call) and isinstance(n.func, ast.Attribute) and n.func.attr == 'append' for n in ast.walk(f.node))
+        if has_paren and loops and appends and not f.cls:
+            cands.append(f)
+    if len(cands) != 1:
+        raise AnalysisError('anchor vanished: tie writer (functions decorating entries with parentheses in a loop: %s)' % [c.qualname for c in cands])
+    W = cands[0]
+    wp = W.params
+    wrappers = {W.name: (0, 1)}
+    changed = True
+    while changed:
+        changed = False
+        for f in repo.all_funcs():
+            if not f.relpath.startswith(gen) or f.name in wrappers:
+                continue
+            ps = f.params[1:] if f.cls else f.params
+            for n in ast.walk(f.node):
+                if isinstance(n, ast.Call) and (getattr(n.func, 'id', None) in wrappers or getattr(n.func, 'attr', None) in wrappers) and len(n.args) >= 2:
+                    nm = getattr(n.func, 'id', None) or n.func.attr
+                    ia, ib = wrappers[nm]
+                    a, b = n.args[ia], n.args[ib]
+                    if isinstance(a, ast.Name) and isinstance(b, ast.Name) and a.id in ps and b.id in ps:
+                        wrappers[f.name] = (ps.index(a.id), ps.index(b.id))
+                        changed = True
     found = {}
     for cls in ('Generator_ha_sm_hr', 'Generator_spa'):
         f = repo.method(cls, 'create_instance')
-        joined = set()
-        for n in ast.walk(f.node):
-            if isinstance(n, ast.Call) and isinstance(n.func, ast.Attribute) and n.func.attr == 'join' and n.args and isinstance(n.args[0], ast.Name):
-                joined.add(n.args[0].id)
-        callees = set()
         sites = []
         for n in ast.walk(f.node):
-            if isinstance(n, ast.Assign) and len(n.targets) == 1 and isinstance(n.targets[0], ast.Name) and n.targets[0].id in joined \
-                    and isinstance(n.value, ast.Call) and isinstance(n.value.func, ast.Name):
-                callees.add(n.value.func.id)
-                sites.append(n)
-        found[cls] = (f, callees, sites)
-    return found
+            if isinstance(n, ast.Call):
+                nm = getattr(n.func, 'id', None) or getattr(n.func, 'attr', None)
+                if nm in wrappers and len(n.args) > max(wrappers[nm]):
+                    sites.append((n, wrappers[nm]))
+        found[cls] = (f, sites)
+    return W, found, wrappers
+
+
+def helper_resolver(repo, pkg):
+    def res(name):
+        c = [f for f in repo.funcs_by_name.get(name, []) if f.relpath.startswith(pkg)]
+        return c[0].node if len(c) == 1 else None
+    return res
 
 
 def find_reader(repo):
@@ -57,28 +100,23 @@ def run(rep, repo, tier):
     for k, v in RULES.items():
         rep.rule(k, v)
     rep.assumptions += ['tokens are separated by whitespace and a number token consists of digits (A4/A5-level facts of str() on ints)']
-    fw = find_writer(repo)
-    names = set()
-    for cls, (f, callees, sites) in fw.items():
-        rep.check(len(callees) == 1, 'C13.R5', f.where, 'one tie writer produces every preference-list line of %s' % cls, got=sorted(callees), want='a single function',
-                  construct='writers used by %s: %s' % (cls, sorted(callees)))
-        names |= callees
-    rep.check(len(names) == 1, 'C13.R5', 'matchingproblems/generator', '2-agent and 3-agent generators share the tie writer', got=sorted(names), construct='writer set %s' % sorted(names))
-    if len(names) != 1:
-        return
-    wf = repo.function(names.pop())
+    wf, fw, wrappers = find_writer(repo)
+    for cls, (f, sites) in fw.items():
+        rep.check(len(sites) >= 1, 'C13.R5', f.where, 'every preference-list line of %s is produced by the tie writer %s' % (cls, wf.name), got='%d call sites' % len(sites),
+                  want='>= 1', construct='writer call sites in %s' % cls)
+    # no other function of the generator emits parentheses
     rf = find_reader(repo)
     check_indicators(rep, repo)
     check_call_sites(rep, repo, fw, wf, rf)
     try:
-        wt = T.WriterTable(wf)
+        wt = T.WriterTable(wf, resolver=helper_resolver(repo, repo.rel('generator')))
     except Unknown as u:
         rep.inconclusive('C13.R1', wf.where, 'tie writer loop is inside the recognised fragment', got=str(u))
         return
     rep.count('writer_table_rows', len(wt.table))
     decs = sorted({v[1] for v in wt.table.values() if v[0] != 'BAD'})
     try:
-        rt = T.ReaderTable(rf, decs)
+        rt = T.ReaderTable(rf, decs, resolver=helper_resolver(repo, repo.rel('solver')))
     except Unknown as u:
         rep.inconclusive('C13.R2', rf.where, 'tie reader loop is inside the recognised fragment', got=str(u))
         return
@@ -124,26 +162,26 @@ def check_indicators(rep, repo):
     if comp[0] == 'comp' and len(comp[1]) == 1:
         b, g = comp[1][0]
         v = comp[2]
-        if b[3] == S(params[0]) and g == TRUE and v[0] == 'call' and show(v[1]).endswith('random.choice') and len(v[2]) >= 2:
-            ok = v[2][1] == CALL(S('len'), [b])
+        if b[3] == S(params[0]) and g == TRUE and v[0] == 'call' and show(v[1]).endswith('random.choice') and len(v[2]) >= 1:
+            size = v[2][1] if len(v[2]) >= 2 else dict(v[3]).get('size')
+            ok = size == CALL(S('len'), [b])
     rep.check(ok, 'C13.R4', f.where, 'each list gets exactly len(list) tie indicators', got=got[:200], want='[choice(choices, len(pl), p=..) for pl in pref_lists]',
               construct='indicator vector length')
 
 
 def check_call_sites(rep, repo, fw, wf, rf):
-    for cls, (f, callees, sites) in fw.items():
-        for n in sites:
-            args = n.value.args
-            ok = (len(args) == 2 and all(isinstance(a, ast.Subscript) and isinstance(a.value, ast.Name) for a in args)
-                  and ast.dump(args[0].slice) == ast.dump(args[1].slice))
-            rep.check(ok, 'C13.R5', f.where, 'writer is applied to (list[x], indicators[x]) of the same agent', got=ast.unparse(n.value), want='%s(lists[x], ties[x])' % wf.name,
-                      construct='writer call ' + ast.unparse(n.value), loc='%s:%d' % (f.relpath, n.lineno))
+    for cls, (f, sites) in fw.items():
+        for n, (ia, ib) in sites:
+            a, b = n.args[ia], n.args[ib]
+            ok = (isinstance(a, ast.Subscript) and isinstance(b, ast.Subscript) and isinstance(a.value, ast.Name) and isinstance(b.value, ast.Name)
+                  and ast.dump(a.slice) == ast.dump(b.slice))
+            rep.check(ok, 'C13.R5', f.where, 'writer is applied to (list[x], indicators[x]) of the same agent', got=ast.unparse(n), want='%s(lists[x], ties[x])' % wf.name,
+                      construct='writer call ' + ast.unparse(n), loc='%s:%d' % (f.relpath, n.lineno))
             if not ok:
                 continue
-            # the two arrays come from one producer call in generate_instances
             gi = repo.method(cls, 'generate_instances')
             params = f.params[1:]
-            la, ta = args[0].value.id, args[1].value.id
+            la, ta = a.value.id, b.value.id
             call = None
             for m in ast.walk(gi.node):
                 if isinstance(m, ast.Call) and isinstance(m.func, ast.Attribute) and m.func.attr == 'create_instance':
@@ -152,8 +190,8 @@ def check_call_sites(rep, repo, fw, wf, rf):
                 rep.inconclusive('C13.R5', gi.where, 'create_instance call found', got='call or parameter not found')
                 continue
             actual = {}
-            for p, a in zip(params, call.args):
-                actual[p] = a
+            for p_, a_ in zip(params, call.args):
+                actual[p_] = a_
             for k in call.keywords:
                 actual[k.arg] = k.value
             A1, A2 = actual.get(la), actual.get(ta)
@@ -161,8 +199,12 @@ def check_call_sites(rep, repo, fw, wf, rf):
             if isinstance(A1, ast.Name) and isinstance(A2, ast.Name):
                 for m in ast.walk(gi.node):
                     if isinstance(m, ast.Assign) and len(m.targets) == 1 and isinstance(m.targets[0], ast.Tuple) and len(m.targets[0].elts) == 2 \
-                            and [getattr(e, 'id', None) for e in m.targets[0].elts] == [A1.id, A2.id] and isinstance(m.value, ast.Call):
-                        pair_ok = True
+                            and [getattr(e, 'id', None) for e in m.targets[0].elts] == [A1.id, A2.id]:
+                        v = m.value
+                        if isinstance(v, ast.IfExp):
+                            v = v.body if isinstance(v.body, ast.Call) else v.orelse
+                        if isinstance(v, ast.Call):
+                            pair_ok = True
             rep.check(pair_ok, 'C13.R5', gi.where, 'list and indicator arrays passed for %s/%s are the two results of one producer call' % (la, ta),
                       got='%s, %s' % (ast.unparse(A1) if A1 is not None else None, ast.unparse(A2) if A2 is not None else None), want='a, b = producer(...)',
                       construct='writer argument pairing %s/%s' % (la, ta))
